@@ -2192,3 +2192,354 @@ func ruleConstIndexGuarded(r *Run, rels []string, floor int) {
 		o.OK("%d constant-index site(s), all under a sufficient length test", n)
 	}
 }
+
+// ---- rules added after seed round t/u ----
+
+// ruleOpenLogAlwaysAsks (PV-WHOLE): every selected container's log is requested from the
+// daemon: openLog has no successful exit that did not call ContainerLogs (no shortcut that
+// decides from the container's metadata that it has nothing to say).
+func ruleOpenLogAlwaysAsks(r *Run) {
+	p := r.P
+	o := r.Ob("PV-WHOLE", "dockerlog.(*Querier).openLog request", "openLog returns a reader only after asking the daemon for this container's log: every successful return is dominated by the ContainerLogs call")
+	fn := p.Method(dockerlogPkg, "Querier", "openLog")
+	if fn == nil {
+		o.Fail("-", "openLog not found")
+		return
+	}
+	var logs *ssa.Call
+	for _, g := range funcGroup(fn) {
+		for _, c := range callsIn(g) {
+			if call, ok := c.(*ssa.Call); ok && invokeIs(call, "ContainerLogs") && g == fn {
+				logs = call
+			}
+		}
+	}
+	if logs == nil {
+		// the request may sit in a helper: then every success return must be dominated by the helper call
+		for _, c := range callsIn(fn) {
+			call, ok := c.(*ssa.Call)
+			if !ok {
+				continue
+			}
+			if h := staticCallee(call); h != nil && h.Blocks != nil && pkgOfFunc(h) == pkgOfFunc(fn) {
+				for _, c2 := range callsIn(h) {
+					if cc, ok := c2.(*ssa.Call); ok && invokeIs(cc, "ContainerLogs") {
+						logs = call
+					}
+				}
+			}
+		}
+	}
+	if logs == nil {
+		o.Fail(r.pos(fn.Pos()), "no ContainerLogs request found in openLog")
+		return
+	}
+	good, n := true, 0
+	for _, ret := range returnsOf(fn) {
+		if len(ret.Results) != 2 {
+			continue
+		}
+		succ := false
+		for _, lv := range phiLeaves(unspill(ret.Results[1])) {
+			if isNilConst(lv) {
+				succ = true
+			}
+		}
+		if !succ {
+			continue
+		}
+		n++
+		if !instrDominates(logs, ret) {
+			good = false
+			o.Fail(r.pos(ret.Pos()), "openLog can return a reader (%s) without having asked the daemon for the container's log", describe(ret.Results[0], 0))
+		}
+	}
+	if n == 0 {
+		o.Fail(r.pos(fn.Pos()), "no successful return found")
+		return
+	}
+	if good {
+		o.OK("%d successful return(s), all after ContainerLogs", n).At(r.pos(fn.Pos()))
+	}
+}
+
+// ruleBinOpModifierFresh (PV-FRESH): the modifier stored in a binary expression is the one
+// parsed for that operator: the value comes straight from the parseBinOpModifier call of the
+// same loop iteration, never from a variable that survives from an earlier operator.
+func ruleBinOpModifierFresh(r *Run) {
+	p := r.P
+	o := r.Ob("PV-FRESH", "logql.(*parser).parseBinOp modifier", "BinOpExpr.Modifier is the result of the modifier parse made for this operator (no state carried from the previous operator of the chain)")
+	fn := p.Method(logqlPkg, "parser", "parseBinOp")
+	if fn == nil {
+		o.Fail("-", "parseBinOp not found")
+		return
+	}
+	n, good := 0, true
+	for _, g := range funcGroup(fn) {
+		allInstrs(g, func(in ssa.Instruction) {
+			st, ok := in.(*ssa.Store)
+			if !ok {
+				return
+			}
+			f, base, ok := fieldNameOf(st.Addr)
+			if !ok || f != "Modifier" || typeKey(derefType(base.Type())) != "BinOpExpr" {
+				return
+			}
+			n++
+			v := unspill(st.Val)
+			if ph, isPhi := v.(*ssa.Phi); isPhi {
+				good = false
+				o.Fail(r.pos(st.Pos()), "the stored modifier is %s: a value that can come from an earlier operator of the chain", describe(ph, 0))
+				return
+			}
+			c, idx, isEx := extractOf(v)
+			if !isEx || idx != 0 {
+				if lu, ok := v.(*ssa.UnOp); ok {
+					// a local: written once per iteration by the parse
+					if al, ok := lu.X.(*ssa.Alloc); ok {
+						for _, s2 := range storesTo(al) {
+							if c2, i2, ok := extractOf(s2.Val); !ok || i2 != 0 || !strings.Contains(strings.ToLower(calleeName(c2)), "modifier") {
+								good = false
+								o.Fail(r.pos(st.Pos()), "the stored modifier can be %s", describe(s2.Val, 0))
+							}
+						}
+						if len(storesTo(al)) != 1 {
+							good = false
+							o.Fail(r.pos(st.Pos()), "the modifier variable is written at %d places: it can keep the value parsed for an earlier operator", len(storesTo(al)))
+						}
+						return
+					}
+				}
+				good = false
+				o.Fail(r.pos(st.Pos()), "the stored modifier is %s, not the result of the modifier parse", describe(v, 0))
+				return
+			}
+			if callee := staticCallee(c); callee == nil || !types.Identical(derefType(callee.Signature.Results().At(0).Type()), derefType(st.Val.Type())) {
+				good = false
+				o.Fail(r.pos(st.Pos()), "the stored modifier comes from %s", calleeName(c))
+			}
+		})
+	}
+	if n == 0 {
+		o.Fail(r.pos(fn.Pos()), "no store to BinOpExpr.Modifier found in parseBinOp")
+		return
+	}
+	if good {
+		o.OK("%d store(s): Modifier = parseBinOpModifier() of the same iteration", n).At(r.pos(fn.Pos()))
+	}
+}
+
+// ruleNoUnsafeStrings (PV-ALIAS): no first-party code of the engine or the Docker backend turns
+// bytes into a string without copying (unsafe.String): such a string aliases a buffer that the
+// decoder, scanner or template stage reuses for the next record.
+func ruleNoUnsafeStrings(r *Run, rels []string) {
+	p := r.P
+	o := r.Ob("PV-ALIAS", "unsafe strings "+strings.Join(rels, ","), "no unsafe.String (zero-copy []byte -> string): every string kept in a label, a line or a record owns its bytes")
+	n, good := 0, true
+	for _, fn := range p.SrcFuncs() {
+		in := false
+		for _, rel := range rels {
+			if pkgPathOf(fn) == modPath+"/"+rel {
+				in = true
+			}
+		}
+		if !in {
+			continue
+		}
+		n++
+		for _, c := range callsIn(fn) {
+			if bi, ok := c.Common().Value.(*ssa.Builtin); ok && bi.Name() == "String" {
+				good = false
+				o.Fail(r.pos(c.Pos()), "%s builds a string over a byte buffer without copying (unsafe.String)", shortFuncName(fn))
+			}
+		}
+	}
+	if n == 0 {
+		o.Fail("-", "no functions analysed")
+		return
+	}
+	if good {
+		o.OK("%d function(s), no unsafe.String", n)
+	}
+}
+
+// ruleLabelSetRangeWhole (PV-WHOLE): LabelSet.Range hands every label to its callback: the
+// callback call is the only thing in the loop over the label map, with no condition that skips
+// an entry (drop, keep and the metric label set are built on it).
+func ruleLabelSetRangeWhole(r *Run) {
+	p := r.P
+	o := r.Ob("PV-WHOLE", "logqlengine.(*LabelSet).Range", "Range calls the callback for every label of the set, whatever its value")
+	fn := p.Method(enginePkg, "LabelSet", "Range")
+	if fn == nil || len(fn.Params) != 2 {
+		o.Fail("-", "LabelSet.Range not found")
+		return
+	}
+	var nx *ssa.Next
+	allInstrs(fn, func(in ssa.Instruction) {
+		if n, ok := in.(*ssa.Next); ok {
+			if rg, ok := n.Iter.(*ssa.Range); ok {
+				if f, _, ok := loadOfField(rg.X); ok && f == "labels" {
+					nx = n
+				}
+			}
+		}
+	})
+	if nx == nil {
+		o.Fail(r.pos(fn.Pos()), "no range over l.labels")
+		return
+	}
+	blocks := naturalLoop(nx.Block())
+	var cb *ssa.Call
+	for b := range blocks {
+		for _, in := range b.Instrs {
+			if c, ok := in.(*ssa.Call); ok && (c.Call.Value == ssa.Value(fn.Params[1]) || unspill(c.Call.Value) == ssa.Value(fn.Params[1])) {
+				cb = c
+			}
+		}
+	}
+	if cb == nil {
+		o.Fail(r.pos(fn.Pos()), "the callback is not called in the loop over the labels")
+		return
+	}
+	good := true
+	for b := range blocks {
+		if b == nx.Block() {
+			continue
+		}
+		if _, isIf := b.Instrs[len(b.Instrs)-1].(*ssa.If); isIf {
+			good = false
+			o.Fail(r.pos(b.Instrs[len(b.Instrs)-1].(*ssa.If).Cond.Pos()), "a condition inside the loop decides whether a label is handed to the callback")
+		}
+		for _, sc := range b.Succs {
+			if !blocks[sc] {
+				good = false
+				o.Fail(r.pos(fn.Pos()), "the loop over the labels can be left early")
+			}
+		}
+	}
+	if good {
+		o.OK("for k, v := range l.labels { cb(k, v) }").At(r.pos(fn.Pos()))
+	}
+}
+
+// ruleTemplateStringsByName (PV-ROLE): a template function that is bound directly to a function
+// of package strings carries that function's own name (ToLower, TrimPrefix, ...: LogQL's Go-style
+// functions, which share Go's argument order). The lower-case predicates of LogQL (contains,
+// hasPrefix, hasSuffix, ...) take the needle first and must not be bound to strings.* directly.
+func ruleTemplateStringsByName(r *Run) {
+	p := r.P
+	o := r.Ob("PV-ROLE", "logqlengine.tmplFunctions strings bindings", "a template function bound directly to strings.F is called F: the lower-case LogQL predicates (needle first) are not aliases of strings.Contains/HasPrefix/HasSuffix (subject first)")
+	fn := p.Func(enginePkg, "tmplFunctions")
+	if fn == nil {
+		o.Fail("-", "tmplFunctions not found")
+		return
+	}
+	n, good := 0, true
+	for _, g := range funcGroup(fn) {
+		allInstrs(g, func(in ssa.Instruction) {
+			mu, ok := in.(*ssa.MapUpdate)
+			if !ok {
+				return
+			}
+			key, ok := constStr(mu.Key)
+			if !ok {
+				return
+			}
+			v := mu.Value
+			if mi, ok := v.(*ssa.MakeInterface); ok {
+				v = mi.X
+			}
+			f, ok := v.(*ssa.Function)
+			if !ok || f.Pkg == nil || f.Pkg.Pkg.Path() != "strings" {
+				return
+			}
+			n++
+			if f.Name() != key {
+				good = false
+				o.Fail(r.pos(mu.Pos()), "template function %q is bound to strings.%s: LogQL's %s takes its operands in another order than strings.%s", key, f.Name(), key, f.Name())
+			}
+		})
+	}
+	if n < 3 {
+		o.Fail(r.pos(fn.Pos()), "only %d direct strings.* bindings found in the template function table", n)
+		return
+	}
+	if good {
+		o.OK("%d direct bindings, each under the function's own name", n).At(r.pos(fn.Pos()))
+	}
+}
+
+// ruleJSONIntegersExact (PV-API): an integer in a JSON document becomes an integer label value
+// without passing through a float64 (which rounds above 2^53).
+func ruleJSONIntegersExact(r *Run) {
+	p := r.P
+	o := r.Ob("PV-API", "logqlengine JSON integers", "pcommon.NewValueInt is never given a number converted from a float: integer fields keep all their digits")
+	n, good := 0, true
+	for _, fn := range p.SrcFuncs() {
+		if pkgPathOf(fn) != modPath+"/"+enginePkg {
+			continue
+		}
+		for _, c := range callsIn(fn) {
+			if pk, nm := calleePkgName(c); !strings.HasSuffix(pk, "pdata/pcommon") || nm != "NewValueInt" {
+				continue
+			}
+			n++
+			v := unspill(c.Common().Args[0])
+			for d := 0; d < 6; d++ {
+				cv, ok := v.(*ssa.Convert)
+				if !ok {
+					break
+				}
+				if bt, isB := cv.X.Type().Underlying().(*types.Basic); isB && bt.Info()&types.IsFloat != 0 {
+					good = false
+					o.Fail(r.pos(c.Pos()), "%s builds an integer value from a float64 (%s): integers above 2^53 are rounded", shortFuncName(fn), describe(cv.X, 0))
+				}
+				v = unspill(cv.X)
+			}
+		}
+	}
+	if n == 0 {
+		o.Fail("-", "no pcommon.NewValueInt call found in the engine")
+		return
+	}
+	if good {
+		o.OK("%d integer value(s), none from a float", n)
+	}
+}
+
+// ruleBatchAggregatorsStateless (PV-PURE): a batch aggregator computes its value from the points
+// it is given: Aggregate stores nothing into its receiver (a buffer kept between calls leaks one
+// window's points into the next series or step).
+func ruleBatchAggregatorsStateless(r *Run) {
+	p := r.P
+	o := r.Ob("PV-PURE", "logqlmetric batch aggregators", "Aggregate(points) of the range aggregators writes no field of its receiver: the value at a step depends on that step's window only")
+	n, good := 0, true
+	for _, fn := range p.SrcFuncs() {
+		if pkgPathOf(fn) != modPath+"/"+metricPkg || fn.Signature.Recv() == nil || fn.Name() != "Aggregate" || len(fn.Params) != 2 {
+			continue
+		}
+		if _, isSlice := fn.Params[1].Type().Underlying().(*types.Slice); !isSlice {
+			continue
+		}
+		n++
+		allInstrs(fn, func(in ssa.Instruction) {
+			st, ok := in.(*ssa.Store)
+			if !ok {
+				return
+			}
+			if f, base, ok := fieldNameOf(st.Addr); ok && (base == ssa.Value(fn.Params[0]) || originValue(base) == ssa.Value(fn.Params[0])) {
+				if _, isPtr := fn.Params[0].Type().Underlying().(*types.Pointer); isPtr {
+					good = false
+					o.Fail(r.pos(st.Pos()), "%s stores into its receiver's field %s: state survives from one window to the next", shortFuncName(fn), f)
+				}
+			}
+		})
+	}
+	if n < 4 {
+		o.Fail("-", "only %d Aggregate method(s) found", n)
+		return
+	}
+	if good {
+		o.OK("%d Aggregate method(s), none writes its receiver", n)
+	}
+}
